@@ -8,3 +8,4 @@ mod h_int;
 mod h_disp;
 mod h_div;
 mod h_pi;
+mod h_sweep;
